@@ -121,10 +121,11 @@ func checkCmd(args []string) int {
 	}
 	tmp, _ := os.MkdirTemp("", "govc-"+id+"-")
 	defer os.RemoveAll(tmp)
-	d := &Discharger{Prelude: u.Prelude, Dir: tmp, TimeoutMs: 90000, Primary: []string{"z3-new", "z3", "cvc5"}, Stats: newStats(), Workers: runtime.NumCPU()}
+	d := &Discharger{Prelude: u.Prelude, Dir: tmp, TimeoutMs: 90000, Primary: []string{"z3-new", "z3", "cvc5"}, Stats: newStats(), Workers: runtime.NumCPU(), SlowBudget: 48, WallBudget: 25 * time.Minute}
 	if *tier == "thorough" {
 		d.TimeoutMs = 300000
 		d.SecondGround = "cvc5"
+		d.SlowBudget, d.WallBudget = 96, 3*time.Hour
 	}
 	var groups [][]*Oblig
 	funcsUnder := map[string]bool{}
@@ -369,7 +370,7 @@ func checkCmd(args []string) int {
 
 	// verdict
 	known, fixedLines := loadKnownFindings(filepath.Join(verifRoot, "known-findings.txt"))
-	total, discharged := 0, 0
+	total, discharged, skipped := 0, 0, 0
 	byKind := map[string]int{}
 	var failed []*Oblig
 	knownHit := map[string]bool{}
@@ -379,6 +380,10 @@ func checkCmd(args []string) int {
 			byKind[o.Kind]++
 			if o.ok() {
 				discharged++
+				continue
+			}
+			if o.Result == "skipped" {
+				skipped++
 				continue
 			}
 			failed = append(failed, o)
@@ -570,6 +575,7 @@ func checkCmd(args []string) int {
 			"translation_samples":    xsamples,
 			"refuted_known_findings": knownCount,
 			"undecided":              undecided,
+			"not_attempted_after_failure_budget": skipped,
 			"checker_cmd":            fmt.Sprintf("bin/verif check %s --tier %s   (z3-new -smt2 on generated SMT-LIB; FP bit-precise)", id, *tier),
 			"trusted_base":           trusted,
 			"samples":                samples,
@@ -595,6 +601,9 @@ func checkCmd(args []string) int {
 		os.MkdirAll(*evdir, 0o755)
 		b, _ := json.MarshalIndent(ev, "", " ")
 		os.WriteFile(filepath.Join(*evdir, id+".json"), b, 0o644)
+	}
+	if skipped > 0 {
+		fmt.Printf("  %d obligations were not attempted: the failure budget (%d obligations without a definite answer, or %s of wall time with a failure) was used up by the obligations reported above\n", skipped, d.SlowBudget, d.WallBudget)
 	}
 	fmt.Printf("%s: %d obligations, %d discharged, %d known findings, %d violations, %.1fs (%s tier)\n", id, total, discharged, knownCount, violations, time.Since(start).Seconds(), *tier)
 	if violations > 0 {
